@@ -70,6 +70,12 @@ def generate(prop, rng):
             d = rng.choice(["dup", "dup/deep", "ü"])
             if not any(k == d or k.startswith(d + "/") for k in t) and "dup" not in t:
                 t[d + "/" + rng.choice(gen.NAMES)] = t[rng.choice(sorted(t))]
+    for t in trees:
+        if rng.random() < 0.2:
+            # two paths that differ only in separator vs underscore (flattened they are the same string)
+            pair = {"a_b/c": rng.randrange(len(pool)), "a/b_c": rng.randrange(len(pool))}
+            if not any(k == r or k.startswith(r + "/") or r.startswith(k + "/") or k in ("a", "a_b") for k in t for r in pair):
+                t.update(pair)
     faulty = prop == "C01" and rng.random() < 0.6
     cfg = {
         "reflink": gen.weighted(rng, [(5, "enotsup"), (3, "nocow"), (2, "cow")]),
